@@ -238,6 +238,10 @@ def monStep (m : MSt) (bl : Block) : MSt × List String :=
         [if c.dynamic && m.resets > 0 then "prop=C09 reason=result-depends-on-frames-before-ffc-dynamic-threshold-kept-across-reset"
          else "prop=C09 reason=result-depends-on-frames-before-ffc-or-reset"] else []
     let fp := if panics.isEmpty then [] else ["prop=C07 reason=panic"]
+    -- C14: a camera reset (the clear marker) restarts detection — with a fixed threshold the verdicts after it must not
+    -- depend on what came before (the dynamic-threshold case is known finding F7 and reported under C09 only)
+    let f14 := if m.eqC09 && ma != mb && m.resets > 0 && !c.dynamic
+      then ["prop=C14 reason=detection-after-a-camera-reset-depends-on-frames-before-it"] else []
     let (orc, fo) : Option St × List String := match m.orc with
       | none => (none, [])
       | some st =>
@@ -252,7 +256,7 @@ def monStep (m : MSt) (bl : Block) : MSt × List String :=
               recomputes := m.recomputes + ra + rb,
               pairChecks := m.pairChecks + (if m.eqC08 || m.eqC09 then 1 else 0),
               specChecks := m.specChecks + (if !c.dynamic && !a'.everAffected then 1 else 0) },
-     fa' ++ fb' ++ f8 ++ f9 ++ fp ++ fo)
+     fa' ++ fb' ++ f8 ++ f9 ++ fp ++ fo ++ f14)
   | ["e", ton, lf, hex] =>
     ({ m with pendB := some (int ton, int lf, parseHex hex), orc := m.orc.map fun st => (step st bl).1 }, [])
   | ["r"] =>
